@@ -217,6 +217,7 @@ CHECKS["C14"] = {
     "level_text": "Generated histories with two oracles: safety (every handshake during and after the history succeeds and presents a pair whose certificate and key have both been completely on disk) and convergence (within 3 s of real time after the settle suffix, re-checked once after 2 more seconds, new handshakes present the settled pair).",
     "level_note": "Trusted: this kernel's inotify semantics on this filesystem (tmpfs/overlay under $TMPDIR), fsnotify v1.7.0, wall-clock bound of 3 s + 2 s (events arrive within milliseconds here). The safety set is the superset 'certificate k and key k have each been fully written at some time', which never raises a false alarm.",
     "assumptions": ["real time: the only check with a timing tolerance; a history whose settled files are not on disk is discarded, not judged"],
-    "units": [{"name": "c14", "pkg": "c14", "run": "^Test", "shards": 8}],
-    "expect_checks": ["c14.reload"],
+    "units": [{"name": "c14", "pkg": "c14", "run": "^Test", "shards": 8},
+              {"name": "c14w", "pkg": ".", "overlay": "root", "run": "^TestVerifWiringC14$", "shards": 2}],
+    "expect_checks": ["c14.reload", "c14.wiring"],
 }
